@@ -66,7 +66,8 @@ fn check<S: Shape>(ctx: &mut Ctx, shape: S, st: StyleD) {
     let kind = S::KIND;
     let case = || format!("{:?} style[{}]", shape, st.text());
     let bb = shape.bounding_box();
-    let m = st.width as i32 + 3;
+    // the areas reach at most the outside part of the stroke beyond the shape
+    let m = in_out(&st).1.min(100_000) as i32 + 3;
     // expected map from the public areas
     let fill_c = st.fill.map(|f| C::nth(f).to_u32());
     let stroke_c = if st.width > 0 { st.stroke.map(|s| C::nth(s).to_u32()) } else { None };
@@ -293,6 +294,26 @@ fn main() {
             match (idx / 2) % 4 {
                 0 => check(ctx, Rectangle::new(pos(rng), Size::new(w, h)), st),
                 1 => check(ctx, Circle::new(pos(rng), w.max(h)), st),
+                2 => check(ctx, Ellipse::new(pos(rng), Size::new(w, h)), st),
+                _ => {
+                    let mut r = |rng: &mut Rng| Size::new(rng.u32r(0, w), rng.u32r(0, h));
+                    let corners = CornerRadii { top_left: r(rng), top_right: r(rng), bottom_right: r(rng), bottom_left: r(rng) };
+                    check(ctx, RoundedRectangle::new(Rectangle::new(pos(rng), Size::new(w, h)), corners), st)
+                }
+            }
+        });
+        // inside strokes of extreme width (the "stroke fills the whole shape" idiom is u32::MAX): nothing
+        // of the stroke lies outside the shape, so the areas stay small and can be compared point by point
+        let ne = run.tier(1_200u64, 40_000u64);
+        run.generate("inside-strokes-of-extreme-width", ne, false, 0.3, |ctx, idx, rng| {
+            const W: [u32; 12] = [u32::MAX, u32::MAX - 1, u32::MAX - 6, u32::MAX - 40_000, 0xC000_0000, 3_000_000_000, 0x8000_0001, 0x8000_0000, 0x7FFF_FFFF, 0x7FFF_FFFE, 0x4000_0000, 70_000];
+            let width = if rng.chance(1, 6) { u32::MAX - rng.u32r(0, 50_000) } else { W[(idx % 12) as usize] };
+            let colours = [(Some(1u32), Some(2u32)), (None, Some(2)), (Some(1), None), (Some(3), Some(3))][((idx / 12) % 4) as usize];
+            let st = StyleD { fill: colours.0, stroke: colours.1, width, align: 0, dotted: false };
+            let (w, h) = (rng.u32r(0, 26), rng.u32r(0, 26));
+            match (idx / 48) % 4 {
+                0 => check(ctx, Rectangle::new(pos(rng), Size::new(w, h)), st),
+                1 => check(ctx, Circle::new(pos(rng), w), st),
                 2 => check(ctx, Ellipse::new(pos(rng), Size::new(w, h)), st),
                 _ => {
                     let mut r = |rng: &mut Rng| Size::new(rng.u32r(0, w), rng.u32r(0, h));
